@@ -113,6 +113,10 @@ def cases(tier, seed):
     for c in [{'fam': 'MEM', 'aw': 2, 'bw': 4, 'nr': 1, 'nw': 1}] + [c_ for c_ in designs.seq_cases(widths=(4,)) if c_['kind'] in ('counter', 'mem_rdw', 'chain')]:
         for simk in ('sim', 'fast', 'compiled'):
             out.append(dict(c, k='testbench', K=2, add_reset=False, sim=simk, init='dflt', dv=1, wb='same'))
+    # a trace without any step yet is a trace too: the testbench still starts from the state the simulation started from
+    for simk in ('sim', 'fast', 'compiled'):
+        out.append({'fam': 'SEQ', 'kind': 'counter', 'w': 4, 'k': 'testbench', 'K': 0, 'add_reset': False, 'sim': simk, 'init': 'ones', 'wb': 'same'})
+        out.append({'fam': 'MEM', 'aw': 2, 'bw': 4, 'nr': 1, 'nw': 1, 'k': 'testbench', 'K': 0, 'add_reset': False, 'sim': simk, 'init': 'ones', 'wb': 'same'})
     # memories with initial contents at both ends of the address space, small and large (the emitter may treat big memories apart)
     for aw in (1, 5, 16, 17):
         for j, simk in enumerate(('sim', 'fast', 'compiled')):
